@@ -25,12 +25,20 @@ ASSUMPTIONS = [
 ]
 
 
-def _data(sizes, width):
+def _data(sizes, width, kind="float"):
+    """Rows carry globally unique ids in column 0.  kind 'int_big': int64 data whose values lie above 2^53 (distinct as
+    integers, indistinguishable after a detour through float64); 'int': small int64; 'float32'."""
     out = []
     for e, n in enumerate(sizes):
-        ids = (e * 1000 + np.arange(n)).astype(float)
-        cols = [ids] + [ids * (c + 2) + 0.5 for c in range(width - 1)]
-        out.append(np.stack(cols, axis=1) if n or True else np.zeros((0, width)))
+        if kind in ("int_big", "int"):
+            base = (2 ** 60 if kind == "int_big" else 0) + e * 1000
+            ids = base + np.arange(n, dtype=np.int64)
+            cols = [ids] + [ids - (c + 1) * 7 for c in range(width - 1)]
+            out.append(np.stack(cols, axis=1).astype(np.int64))
+        else:
+            ids = (e * 1000 + np.arange(n)).astype(float)
+            cols = [ids] + [ids * (c + 2) + 0.5 for c in range(width - 1)]
+            out.append(np.stack(cols, axis=1).astype(np.float32 if kind == "float32" else float))
     return out
 
 
@@ -46,7 +54,7 @@ def _ratios(case):
 def check(case):
     import sempler.utils as utils
     sizes = case["sizes"]
-    data = _data(sizes, case.get("width", 2))
+    data = _data(sizes, case.get("width", 2), case.get("data_kind", "float"))
     keep = [d.copy() for d in data]
     ratios = _ratios(case)
     rl = [float(x) for x in ratios]
@@ -56,7 +64,7 @@ def check(case):
     lab = []
     if case.get("expect") == "error":
         must_raise(o, ValueError, ctx + " [ratios do not sum to 1]")
-        return ["ratio_error", "nt"]
+        return ["ratio_error", "nt"] + (["no_environments"] if not sizes else [])
     folds = must(o, ctx)
     exact = [fr(k) for k in case["ratios"]]
     nf = len(exact)
@@ -150,7 +158,7 @@ def _compositions(total, parts):
 
 @st.composite
 def split_case(draw):
-    ne = draw(st.integers(1, 4))
+    ne = draw(st.sampled_from([0, 1, 1, 2, 2, 3, 4]))
     sizes = [draw(st.sampled_from([0, 1, 2, 3, 5, 7, 9, 10, 11, 13, 17, 25, 33, 40]) | st.integers(0, 40)) for _ in range(ne)]
     many = draw(st.integers(0, 5)) == 0
     nf = draw(st.integers(7, 100)) if many else draw(st.integers(1, 6))
@@ -163,7 +171,8 @@ def split_case(draw):
         ks, m = [1] * nf, nf                       # k equal folds of 1/k: the float sum drifts away from 1.0 by several ulp
     case = {"sub": "hyp", "sizes": sizes, "ratios": [fstr(Fraction(k, m)) for k in ks], "width": draw(st.sampled_from([1, 2, 3])),
             "rpres": draw(st.sampled_from(["list", "list", "tuple", "array"])),
-            "seed": draw(st.sampled_from([0, None, 42, 1]) | st.integers(0, 2 ** 32 - 1))}
+            "seed": draw(st.sampled_from([0, None, 42, 1]) | st.integers(0, 2 ** 32 - 1)),
+            "data_kind": draw(st.sampled_from(["float", "float", "int", "int_big", "float32"]))}
     if draw(st.integers(0, 5)) == 0:
         # off by a small but definite amount: must raise
         mag = draw(st.sampled_from([2e-6, 5e-6, 1e-5, 3e-5, 1e-4, 1e-3, 1e-2]))
